@@ -463,3 +463,83 @@ Proof.
   { apply K; [right; cbn; auto|cbn; auto|reflexivity|reflexivity|vm_compute; reflexivity]. }
   vm_compute in Hk. apply Hk. reflexivity.
 Qed.
+
+(* ================================================================== *)
+(* 5. the leader's own proposals keep "at most one membership change above applied"
+      (the filter argument): the hypothesis of leader_appends_cover_conf is preserved by
+      the MsgPropose path; what a NEW leader inherits is protocol level *)
+
+Transparent stamp.
+Lemma stamp_In ents : forall t n e',
+  In e' (stamp ents t n) ->
+  exists k e, nth_error ents k = Some e /\ e_index e' = n + N.of_nat k /\
+              is_conf_entry e' = is_conf_entry e.
+Proof.
+  induction ents as [|e0 rest IH]; intros t n e' H; cbn [stamp] in H; [destruct H|].
+  destruct H as [<-|H].
+  - exists 0%nat, e0. cbn. split; [reflexivity|]. split; [lia|reflexivity].
+  - destruct (IH _ _ _ H) as (k & e & A & B & C0). exists (S k), e. cbn [nth_error].
+    split; [exact A|]. split; [lia|exact C0].
+Qed.
+Opaque stamp.
+
+Lemma filter_count_one {A} (f : A -> bool) l k a :
+  nth_error l k = Some a -> f a = true -> (1 <= length (List.filter f l))%nat.
+Proof.
+  revert k. induction l as [|x l IH]; intros k H Hf; [destruct k; discriminate|].
+  cbn [List.filter]. destruct k as [|k]; cbn [nth_error] in H.
+  - inversion H; subst. rewrite Hf. cbn. lia.
+  - specialize (IH k H Hf). destruct (f x); cbn; lia.
+Qed.
+
+Lemma filter_count_two {A} (f : A -> bool) l k1 k2 a b :
+  nth_error l k1 = Some a -> nth_error l k2 = Some b -> (k1 < k2)%nat ->
+  f a = true -> f b = true -> (2 <= length (List.filter f l))%nat.
+Proof.
+  revert k1 k2. induction l as [|x l IH]; intros k1 k2 H1 H2 Hlt Fa Fb; [destruct k1; discriminate|].
+  cbn [List.filter]. destruct k1 as [|k1]; cbn [nth_error] in H1.
+  - inversion H1; subst. rewrite Fa. destruct k2 as [|k2]; [lia|]. cbn [nth_error] in H2.
+    pose proof (filter_count_one f l k2 b H2 Fb). cbn. lia.
+  - destruct k2 as [|k2]; [lia|]. cbn [nth_error] in H2.
+    specialize (IH k1 k2 H1 H2 ltac:(lia) Fa Fb). destruct (f x); cbn; lia.
+Qed.
+
+Theorem propose_keeps_conf_gap r m r' c :
+  m_type m = MsgPropose -> step_leader r m = Ok (r', c) ->
+  ConfBound r -> LogBounded (r_log r) -> applied (r_log r) <= last_index (r_log r) ->
+  conf_gap (r_log r) (applied (r_log r)) ->
+  conf_gap (r_log r') (applied (r_log r')).
+Proof.
+  intros Ht H Hcb Hlb Hal Hg. apply step_leader_propose_spec in H; [|exact Ht].
+  destruct H as [(_ & Hl & _)|(_ & r1 & ents & l' & z & r2 & F & Hy & _ & Hl2 & Hfr)].
+  { rewrite Hl. exact Hg. }
+  destruct Hfr as (_ & _ & (U & S & Ap) & _).
+  pose proof (log_append_frame _ _ _ _ Hy) as (A & B & _ & D).
+  assert (Happ : applied (r_log r') = applied (r_log r)) by congruence.
+  rewrite Happ.
+  assert (Hsub : forall e, all_ents (r_log r') e ->
+            all_ents (r_log r) e \/ In e (stamp ents (r_term r) (last_index (r_log r) + 1))).
+  { intros e [He|He].
+    - rewrite U, Hl2 in He. destruct (D e He) as [K|K]; [left; left; exact K|right; exact K].
+    - rewrite S, Hl2, A in He. left; right; exact He. }
+  intros e1 e2 A1 A2 C1 C2 Hlt.
+  destruct (Hsub e1 A1) as [O1|N1]; destruct (Hsub e2 A2) as [O2|N2].
+  - exact (Hg e1 e2 O1 O2 C1 C2 Hlt).
+  - (* e1 old, e2 new: a new membership change passed the filter, so none was pending *)
+    destruct (N.le_gt_cases (e_index e1) (applied (r_log r))) as [L|L]; [exact L|]. exfalso.
+    pose proof (Hcb e1 O1 C1 L) as Hp.
+    assert (Hpend : has_pending_conf r = true) by (unfold has_pending_conf; apply N.ltb_lt; lia).
+    destruct (filter_pending_blocks _ _ _ _ _ _ F Hpend) as [Hz _].
+    destruct (stamp_In _ _ _ _ N2) as (k & e & Hk & _ & Hc). rewrite C2 in Hc.
+    pose proof (filter_count_one is_conf_entry ents k e Hk (eq_sym Hc)). unfold count_conf in *. lia.
+  - (* e1 new, e2 old: impossible, new entries lie above the whole old log *)
+    exfalso. destruct (stamp_In _ _ _ _ N1) as (k & e & _ & Hi & _).
+    pose proof (Hlb e2 O2). lia.
+  - (* both new: the filter lets at most one through *)
+    exfalso. destruct (stamp_In _ _ _ _ N1) as (k1 & a & Hk1 & Hi1 & Hc1).
+    destruct (stamp_In _ _ _ _ N2) as (k2 & b & Hk2 & Hi2 & Hc2).
+    rewrite C1 in Hc1. rewrite C2 in Hc2.
+    pose proof (one_conf_per_proposal _ _ _ _ _ _ F Hal) as Hone.
+    pose proof (filter_count_two is_conf_entry ents k1 k2 a b Hk1 Hk2 ltac:(lia) (eq_sym Hc1) (eq_sym Hc2)).
+    unfold count_conf in *. lia.
+Qed.
